@@ -17,7 +17,7 @@ from ..gen import triggers
 SUBJECT_EXCLUDED = {"lazy-ignores"}  # its subject is the suppression comments themselves
 CM = {"py": "#", "ts": "//", "js": "//", "rs": "//"}
 FORMS = ["same-line", "next-line", "block", "block2", "block-named-end", "block-bracket", "next-line-trailing", "same-line-under-foreign-next-line", "file@1", "file@5", "file@10", "file@11", "file@40", "thailintignore", "config-ignore", "linter-ignore"]
-SPELLINGS = ["full", "prefix", "wildcard", "upper", "mixed-list", "bare", "wildcard-upper", "wildcard-mixed-case", "prefix-mixed-case", "full-mixed-case",
+SPELLINGS = ["full", "prefix", "wildcard", "upper", "mixed-list", "mixed-list-spaced", "bare", "wildcard-upper", "wildcard-mixed-case", "prefix-mixed-case", "full-mixed-case",
              "bare-trailing-ws", "full-trailing-ws",  # (blanks / a tab after the directive, which an editor or a formatter may leave)
              "full-after-other-tool"]  # (the directive follows another tool's own ignore[...] comment on the same line)
 NEG_SPELLINGS = ["other-rule", "other-prefix"]
@@ -63,6 +63,9 @@ def spell(rule_id: str, kind: str):
         return [rule_id.title()]
     if kind == "mixed-list":
         return ["some-other.rule", rule_id]
+    if kind == "mixed-list-spaced":
+        # the list as most people type it: a blank after each comma, the rule in question not in first place
+        return ["some-other.rule", " another.rule", " " + rule_id]
     if kind == "alias":
         return [ALIASES[rule_id][0]]
     if kind in ("bare", "bare-trailing-ws"):
@@ -450,7 +453,7 @@ def run_flavour(ctx, rng, files, flavour, matrix):
             def expected(rows, names=names, in_scope=in_scope, shift=shift, f=f):
                 out = []
                 for v in rows:
-                    if v[1] == f and in_scope(v[2]) and (names is None or any(model_matches(v[0], n) for n in names)):
+                    if v[1] == f and in_scope(v[2]) and (names is None or any(model_matches(v[0], n.strip()) for n in names)):
                         continue
                     # file-placement findings carry line 1 by convention and never shift
                     out.append([v[0], v[1], shift(v[2]) if v[1] == f and not v[0].startswith("file-placement") else v[2], v[3], v[4]])
